@@ -11,6 +11,7 @@ import (
 	"time"
 
 	otter "github.com/maypok86/otter/v2"
+	"github.com/maypok86/otter/v2/stats"
 )
 
 // Engine "load" (C08 C09 and the in-flight part of C11): scripted interleavings of loader-backed
@@ -81,6 +82,39 @@ func (h *hookClock) NowNano() int64 {
 }
 func (h *hookClock) Tick(d time.Duration) <-chan time.Time { return time.Tick(d) }
 
+// gatedBulk lets BulkGet callers take part in the protocol: each requested key goes through the same gate
+// as a single load (the engine only ever passes one key, so one gate = one bulk loader invocation).
+type gatedBulk struct{ g *gatedLoader }
+
+func (b gatedBulk) BulkLoad(ctx context.Context, keys []int) (map[int]int, error) {
+	m := map[int]int{}
+	for _, k := range keys {
+		v, err := b.g.enter(k, false, 0)
+		if err != nil {
+			if errors.Is(err, otter.ErrNotFound) {
+				continue
+			}
+			return nil, err
+		}
+		m[k] = v
+	}
+	return m, nil
+}
+func (b gatedBulk) BulkReload(ctx context.Context, keys []int, olds []int) (map[int]int, error) {
+	m := map[int]int{}
+	for i, k := range keys {
+		v, err := b.g.enter(k, true, olds[i])
+		if err != nil {
+			if errors.Is(err, otter.ErrNotFound) {
+				continue
+			}
+			return nil, err
+		}
+		m[k] = v
+	}
+	return m, nil
+}
+
 type getResult struct {
 	thread int
 	val    int
@@ -97,7 +131,8 @@ func runLoad(seed uint64, scale int, out string, _ string) *summary {
 	for cn := 0; cn < nCases; cn++ {
 		withRefresh := r.chance(40)
 		clk := &hookClock{start: time.Now()}
-		opts := &otter.Options[int, int]{Logger: &otter.NoopLogger{}, Clock: clk}
+		counter := stats.NewCounter()
+		opts := &otter.Options[int, int]{Logger: &otter.NoopLogger{}, Clock: clk, StatsRecorder: counter}
 		if withRefresh {
 			opts.RefreshCalculator = otter.RefreshWriting[int, int](time.Hour)
 		}
@@ -165,6 +200,10 @@ func runLoad(seed uint64, scale int, out string, _ string) *summary {
 					continue
 				}
 				pendingThreads[th] = true
+				viaBulk := !refresh && registered[k] != nil && r.chance(50)
+				if viaBulk {
+					sum.Dist["joiner_via_BulkGet"]++
+				}
 				go func() {
 					defer func() {
 						if rec := recover(); rec != nil {
@@ -182,6 +221,20 @@ func runLoad(seed uint64, scale int, out string, _ string) *summary {
 							}
 						}
 						results <- getResult{th, res.Value, es}
+						return
+					}
+					if viaBulk {
+						// a BulkGet of the single key: a joiner of the in-flight load like any other reader
+						res, err := c.BulkGet(context.Background(), []int{k}, gatedBulk{gl})
+						v, ok := res[k]
+						es := ""
+						switch {
+						case err != nil:
+							es = "E"
+						case !ok:
+							es = "N"
+						}
+						results <- getResult{th, v, es}
 						return
 					}
 					v, err := c.Get(context.Background(), k, gl)
@@ -466,6 +519,14 @@ func runLoad(seed uint64, scale int, out string, _ string) *summary {
 		}
 		if n := otter.VerifInFlight(c); n != 0 {
 			sum.fail("C08", "table-not-clean", "in-flight records are left behind after every load has finished", fmt.Sprintf("%s records=%d", desc, n))
+		}
+		// C20 under concurrency: one load success or failure per loader invocation — not per waiter
+		gl.mu.Lock()
+		invoked := gl.n
+		gl.mu.Unlock()
+		if snap := counter.Snapshot(); len(pendingThreads) == 0 && int(snap.LoadSuccesses+snap.LoadFailures) != invoked {
+			sum.fail("C20", "loads-concurrent", "LoadSuccesses + LoadFailures differs from the number of loader invocations",
+				fmt.Sprintf("%s successes=%d failures=%d loader invocations=%d", desc, snap.LoadSuccesses, snap.LoadFailures, invoked))
 		}
 		t.line("END %d", otter.VerifInFlight(c))
 		if len(sum.Samples) < 3 {
